@@ -1303,20 +1303,37 @@ class OpFusePair(Op):
             return None
         sa = g.sh(a)
         fam = [a]
-        for _ in range(rng.choice([1, 1, 2])):
+        crossed = None
+        multi = [k for k, u in enumerate(sa.axes) if len(u.ts) > 1]
+        if len(multi) >= 2 and rng.random() < 0.35:
+            # "crossed" selections: partner 1 keeps ONE sector on leg i and all on leg j, partner 2 the other way round, and (i, j) are fused
+            # together: a fused charge can then exist on both sides while being built from disjoint constituents (a mask that is entirely False)
+            crossed = rng.sample(multi, 2)
+            fam = []
+        for q in range(2 if crossed else rng.choice([1, 1, 2])):
             specs = []
-            for u in sa.axes:
+            for k, u in enumerate(sa.axes):
                 ref = find_uref(g.task, u)
                 if ref is None:
                     return None
                 U = _uleg(g.task, [ref[0], ref[1], None])
                 sub = None
-                if len(U.ts) > 1 and rng.random() < 0.7:
+                if crossed and k in crossed:
+                    sub = [rng.randrange(len(U.ts))] if k == crossed[q] else None
+                elif len(U.ts) > 1 and rng.random() < (0.3 if crossed else 0.7):
                     sub = sorted(rng.sample(range(len(U.ts)), rng.randint(1, len(U.ts))))
                 specs.append([ref[0], ref[1], sub])
             rec = OPS["rand"].gen(g, specs=specs, n=list(sa.n))
             fam.append(g.emit(rec)[0])
-        for _ in range(rng.choice([1, 1, 2])):
+        if crossed:
+            i, j = sorted(crossed)
+            axes = [[i, j] if k == i else k for k in range(sa.ndim) if k != j]
+            rng.shuffle(axes)
+            new = []
+            for b in fam:
+                new.append(g.emit({"op": "fuse", "in": [b], "args": {"axes": axes, "mode": "hard"}})[0])
+            fam = new
+        for _ in range(0 if crossed else rng.choice([1, 1, 2])):
             if g.sh(fam[0]) is None or g.sh(fam[0]).ndim < 2:
                 break
             rec = OPS["fuse"].gen(g, a=fam[0])
